@@ -68,6 +68,8 @@ def run(rep, facts, tier):
     rep.rule('R04.4', 'every request answered: in the repair worker every path from first_unsent_change() = Some(sn) to return emits DATA for get_by_sn(sn) or a GAP; '
                       'a number is marked sent only after its emission')
     rep.rule('R04.5', 'retention fold discipline: the acknowledged-by-all fold ranges over reliable proxies only; with none, everything written counts as acknowledged')
+    rep.rule('R04.7', 'history index integrity: the HistoryBuffer key is a writer-local fresh Timestamp::now() (unique and increasing with the sequence number, as get_by_sn and '
+                      'remove_changes_before assume), never an application-supplied value; add_change indexes the same (sn, key) pair it stores; last_seq only grows')
     rep.rule('R04.6', 'the unsent (requested) set is pruned only by mark_change_sent after an emission and by remove_from_unsent_set_all_before(ACKNACK base | history floor)')
 
     # ------------------------------------------------------------ R04.1
@@ -276,6 +278,49 @@ def run(rep, facts, tier):
         key = b.key if b.kind != 'closure' else b.encl
         ok = key in (W + 'handle_repair_data_send_worker', W + 'send_cache_change', W + 'process_writer_command')
         rep.check(ok, 'R04.6', '%s/mark_change_sent' % key, 'called from an emitting function', 'mark_change_sent is called from %s, which does not emit DATA or GAP' % key, b.where(bb))
+
+    # ------------------------------------------------------------ R04.7
+    n_add = 0
+    for b, bb, t in fx.callers_of('HistoryBuffer::add_change'):
+        n_add += 1
+        rep.analysed(b)
+        og = Origins(b, summaries=True)
+        ts = og.of_operand(t['args'][1], bb, 'term')
+        ok = ts[0] == 'call' and ts[1].endswith('Timestamp::now') and not term_has(ts, lambda x: x[0] == 'param')
+        rep.check(ok, 'R04.7', '%s/history-key' % b.key, 'key = Timestamp::now()',
+                  'the writer history is keyed by %s, not by a fresh writer-local Timestamp::now(): equal or out-of-order keys make two sequence numbers resolve to one sample '
+                  'and make cleaning drop unacknowledged samples' % term_str(ts)[:100], b.where(bb))
+        cc = og.of_operand(t['args'][2], bb, 'term')
+        pn = {d_.get('arg'): d_['name'] for d_ in b.j.get('dbg', []) if d_.get('arg')}
+        snp = [i for i, nm in pn.items() if 'sequence_number' in nm]
+        sn_ok = bool(snp) and term_has(cc, lambda x: x == ('param', snp[0])) and (term_has(cc, lambda x: x[0] == 'call' and x[1].endswith('CacheChange::new')) or
+                                                                                   term_has(cc, lambda x: x[0] == 'agg' and str(x[1]).endswith('CacheChange')))
+        rep.check(sn_ok, 'R04.7', '%s/history-sn' % b.key, 'stored change carries the sequence number handed in by the DataWriter', 'the stored CacheChange does not carry the given sequence number', b.where(bb))
+    rep.floor('R04.7', n_add, 1, 'calls of HistoryBuffer::add_change')
+    ac = fx.find('rtps::writer::HistoryBuffer::add_change')
+    rep.analysed(ac)
+    og = Origins(ac, summaries=True)
+    P = Pos(ac)
+    ins_h = [(bb, t) for bb, t in ac.calls() if callee_res(t).endswith('::insert') and og.of_operand(t['args'][0], bb, 'term') == ('field', 'history_buffer', ('param', 1))]
+    ins_s = [(bb, t) for bb, t in ac.calls() if callee_res(t).endswith('::insert') and og.of_operand(t['args'][0], bb, 'term') == ('field', 'sequence_number_to_instant', ('param', 1))]
+    ok = len(ins_h) == 1 and len(ins_s) == 1
+    if ok:
+        hb_, ht = ins_h[0]
+        sb_, st_ = ins_s[0]
+        ok = og.of_operand(ht['args'][1], hb_, 'term') == ('param', 2) and og.of_operand(st_['args'][2], sb_, 'term') == ('param', 2) and \
+            og.of_operand(st_['args'][1], sb_, 'term') == ('field', 'sequence_number', ('param', 3)) and og.of_operand(ht['args'][2], hb_, 'term') == ('param', 3)
+        ok = ok and all(P.every_path_passes(None, (r, 'term'), via_pos=[(hb_, 'term')], from_entry=True) and P.every_path_passes(None, (r, 'term'), via_pos=[(sb_, 'term')], from_entry=True) for r in ac.return_blocks())
+    rep.check(ok, 'R04.7', 'HistoryBuffer::add_change/index', 'history_buffer[ts] = change and sequence_number_to_instant[change.sn] = ts on every path',
+              'HistoryBuffer::add_change does not index the stored change under its own sequence number and key on every path', ac.where())
+    grow = []
+    for bb, si, st in ac.statements():
+        if st['s'] == 'assign':
+            pr = st['lhs'].get('p') or []
+            if pr and isinstance(pr[-1], dict) and pr[-1].get('n') == 'last_seq':
+                grow.append((bb, si))
+    gt = [(s_, t_) for s_, t_, cond, lab in switch_edges(ac, fx, og) if cond[0] == 'call' and cond[1].endswith('::gt') and lab is True and has_field(cond[2][1], 'last_seq')]
+    okg = bool(grow) and bool(gt) and all(P.every_path_passes(None, g, via_edges=gt, from_entry=True) for g in grow)
+    rep.check(okg, 'R04.7', 'HistoryBuffer::add_change/last-seq-grows', 'last_seq := new_seq only if new_seq > last_seq', 'last_seq can be moved backwards by add_change', ac.where())
 
     if tier == 'thorough' and 'security' in facts:
         fs = facts['security']
